@@ -6,7 +6,7 @@ is exercised inside simulated computations: the yielded convention runs next to 
 blocked on other batch kinds under seeded flush orders, with batch-blocking and raising bodies,
 and after a seeded history of earlier attribute look-ups through other receivers."""
 from .. import real, gen
-from ..prog import SimError, HarnessError
+from ..prog import SimError, SimBaseError, HarnessError
 
 A = real.A
 from asynq import tools as T  # noqa: E402
@@ -17,7 +17,7 @@ DECOS = ["asynq", "pure", "proxy", "proxy_syncpair", "syncpair", "made", "made_p
 BINDINGS = ["function", "method", "classmethod", "staticmethod"]
 RECEIVERS = ["inst", "subinst", "falsyinst", "cls", "subcls", "cls_explicit_self"]
 SPELL = ["pos", "kw", "default", "mixed"]
-BODIES = ["plain", "generator", "blocking", "raising"]
+BODIES = ["plain", "generator", "blocking", "raising", "plain_result", "gen_result", "raising_base"]
 
 
 def valid(deco, binding, receiver):
@@ -56,7 +56,7 @@ class C09(object):
         return {"deco": d, "binding": b, "receiver": r, "spell": rng.choice(SPELL), "body": rng.choice(BODIES),
                 "a": rng.randint(0, 5), "b": rng.choice([0, 0, 3]), "c": rng.choice([0, 0, 4]),
                 "prelookups": [rng.choice(RECEIVERS) for _ in range(rng.randint(0, 3))],
-                "competitors": rng.randint(0, 2), "prio": gen.gen_prio(rng, 3), "order": rng.sample(["sync", "value", "yield", "async_call"], 4)}
+                "competitors": rng.randint(0, 2), "prio": gen.gen_prio(rng, 3), "order": rng.sample(["sync", "value", "yield", "async_call", "sync_in_task"], 5)}
 
     def sample(self, case, r):
         return case
@@ -79,10 +79,12 @@ class C09(object):
             nitem[0] += 1
             return real.SimItem(B.current[k % 3], "i%d" % nitem[0], "k", B)
 
+        raising = body_kind in ("raising", "raising_base")
+
         def impl_plain(tag, a, b, c):
             log.append(("body", tag, a, b, c))
-            if body_kind == "raising":
-                raise SimError("body-raises:%r" % ((tag, a, b, c),))
+            if body_kind == "plain_result":
+                A.result(("body", tag, a, b, c))  # the other way of returning a value
             return ("body", tag, a, b, c)
 
         def impl_gen(tag, a, b, c):
@@ -93,12 +95,17 @@ class C09(object):
                 yield A.ConstFuture(1)
             if body_kind == "raising":
                 raise SimError("body-raises:%r" % ((tag, a, b, c),))
+            if body_kind == "raising_base":
+                raise SimBaseError("body-raises:%r" % ((tag, a, b, c),))
+            if body_kind == "gen_result":
+                A.result(("body", tag, a, b, c))
+                raise HarnessError("result() returned")
             return ("body", tag, a, b, c)
 
         def sync_impl(tag, a, b, c):
             log.append(("sync_fn", tag, a, b, c))
             return ("sync_fn", tag, a, b, c)
-        gen_body = body_kind in ("generator", "blocking", "raising")
+        gen_body = body_kind in ("generator", "blocking", "raising", "raising_base", "gen_result")
 
         # -- the four raw shapes of the decorated function ---------------------------------------
         def mk(kind_tag, first, twin=False):
@@ -252,7 +259,7 @@ class C09(object):
             c = 0
         args = tuple(lead) + args
         body_exp = ("body", tag, a, b, c)
-        if body_kind == "raising":
+        if raising:
             exp_async = ("E", "body-raises:%r" % ((tag, a, b, c),))
         elif deco in ("made", "made_pure"):
             exp_async = ("V", ("wrapped", body_exp))
@@ -265,14 +272,16 @@ class C09(object):
         def outcome(thunk):
             try:
                 return ("V", thunk())
-            except SimError as e:
+            except (SimError, SimBaseError) as e:
                 return ("E", e.tag)
             except HarnessError:
                 raise
             except BaseException as e:
                 return ("X", "%s: %s" % (type(e).__name__, str(e)[:120]))
 
-        def in_task(make_future):
+        seen_at_yield = []
+
+        def in_task(make_future, sync_call=False):
             @A.asynq()
             def competitor(i):
                 v = yield item(1 + i)
@@ -282,21 +291,31 @@ class C09(object):
 
             @A.asynq()
             def caller():
-                return (yield make_future())
+                if sync_call:
+                    # the synchronous call, made by a running task (after it was suspended once)
+                    if ncomp:
+                        yield item(2)
+                    v = make_future()
+                    return ("via-caller", v)  # (the caller goes on after the call)
+                try:
+                    return (yield make_future())
+                except (SimError, SimBaseError) as e:
+                    seen_at_yield.append(e.tag)  # a failure arrives at the yield, where it can be handled
+                    raise
 
             @A.asynq()
             def twin_caller():
                 # the same arguments go to the twin at the same time; each must run its own body
                 try:
                     return (yield twin_fn.asynq(*args[len(lead):], **kw))
-                except SimError as e:
+                except (SimError, SimBaseError) as e:
                     return ("E", e.tag)
 
             @A.asynq()
             def root():
                 extra = [twin_caller.asynq()] if twin_fn is not None else []
                 res = yield extra + [caller.asynq()] + [competitor.asynq(i) for i in range(ncomp)]
-                if extra and body_kind != "raising" and res[0] != ("body", "twin:fn", a, b, c):
+                if extra and not raising and res[0] != ("body", "twin:fn", a, b, c):
                     out.append(("same-body", "%s %s: a second function from the same factory, called with the same arguments at the same time, returned %r" % (deco, binding, res[0])))
                 return res[len(extra)]
             return root()
@@ -317,20 +336,34 @@ class C09(object):
             elif conv == "yield":
                 got = outcome(lambda: in_task((lambda: x(*args, **kw)) if pure else (lambda: x.asynq(*args, **kw))))
                 exp = exp_async
+            elif conv == "sync_in_task":
+                if pure:
+                    got = outcome(lambda: in_task(lambda: x(*args, **kw).value(), sync_call=True))
+                else:
+                    got = outcome(lambda: in_task(lambda: x(*args, **kw), sync_call=True))
+                if got[0] == "V" and isinstance(got[1], tuple) and got[1][:1] == ("via-caller",):
+                    got = ("V", got[1][1])
+                elif got[0] == "V":
+                    got = ("V", ("caller-did-not-continue", got[1]))
+                exp = exp_sync
             else:
                 got = outcome(lambda: in_task(lambda: async_call.asynq(x, *args, **kw)))
                 exp = exp_async
+            if conv in ("yield", "async_call") and raising and got == exp and len(seen_at_yield) != 1:
+                out.append(("convention", "%s %s, %s: the failure of the callee was not raised at the caller's yield (seen there %d times)" % (deco, binding, conv, len(seen_at_yield))))
+                break
+            del seen_at_yield[:]
             results[conv] = got
             if got != exp:
                 out.append(("convention", "%s %s via %s, %s(%s%s): gave %r, expected %r" % (deco, binding, case.get("receiver"), conv, args[len(lead):], kw, got, exp)))
                 break
-            want_log = ("sync_fn", tag, a, b, c) if (conv == "sync" and deco in ("syncpair", "proxy_syncpair", "dedup_syncpair")) else ("body", tag, a, b, c)
+            want_log = ("sync_fn", tag, a, b, c) if (conv in ("sync", "sync_in_task") and deco in ("syncpair", "proxy_syncpair", "dedup_syncpair")) else ("body", tag, a, b, c)
             own_log = [e for e in log if not str(e[1]).startswith("twin:")]
-            cached = deco in ("alru", "percache") and not own_log and body_kind != "raising"
+            cached = deco in ("alru", "percache") and not own_log and not raising
             if not cached and (not own_log or own_log[0] != want_log or (len(own_log) != 1 and deco not in ("aretry",))):
                 out.append(("same-body", "%s %s via %s, %s: ran %r, expected exactly %r" % (deco, binding, case.get("receiver"), conv, log, want_log)))
                 break
-        if not out and deco == "dedup" and body_kind != "raising":
+        if not out and deco == "dedup" and not raising:
             del log[:]
             try:
                 pending = x.asynq(*args, **kw)      # created, not awaited yet: in flight
